@@ -102,6 +102,7 @@ var checks = []Check{
 			{Pkg: "proc/redis", Scenarios: []string{"C09/redis-collect"}, Shards: 16, QuickS: 80, ThoroughS: 240},
 			{Pkg: "proc/tcp", Scenarios: []string{"C09/tcp-stop"}, Shards: 16, QuickS: 60, ThoroughS: 240},
 			{Pkg: "proc/internal/hc", Scenarios: []string{"C09/hc-many-hosts"}, Shards: 4, QuickS: 120, ThoroughS: 240},
+			{Pkg: "proc/internal/hc", Scenarios: []string{"C09/hc-checkers"}, Shards: 16, QuickS: 120, ThoroughS: 240},
 			{Pkg: "controller", Scenarios: []string{"C09/controller"}, Shards: 16, QuickS: 60, ThoroughS: 240},
 		},
 	},
